@@ -11,18 +11,22 @@ File::File(const String &name, FileMode mode) : mode(mode), name(name) {
         case FileMode::READ:
             ifile = std::make_unique<std::ifstream>();
             ifile->open(name.value);
+            open = ifile->is_open();
             break;
         case FileMode::WRITE:
             ofile = std::make_unique<std::ofstream>();
             ofile->open(name.value);
+            open = ofile->is_open();
             break;
         case FileMode::APPEND:
             ofile = std::make_unique<std::ofstream>();
             ofile->open(name.value, std::ios::app);
+            open = ofile->is_open();
             break;
         case FileMode::RANDOM:
             ifile = std::make_unique<std::ifstream>();
             ifile->open(name.value);
+            open = ifile->is_open();
             std::string line;
             if (ifile->peek() != std::ifstream::traits_type::eof()) {
                 while (!ifile->eof()) {
@@ -45,6 +49,10 @@ File::File(const String &name, FileMode mode) : mode(mode), name(name) {
 
 File::~File() {
     if (open) close();
+}
+
+bool File::isOpen() const {
+    return open;
 }
 
 FileMode File::getMode() {
@@ -116,7 +124,9 @@ void File::putRecord(DataHolder &data) {
 
 bool FileManager::createFile(const String &name, FileMode mode) {
     namespace fs = std::filesystem;
-    if (!fs::exists(fs::path(name.value))) {
+    std::error_code ec;
+    if (fs::is_directory(fs::path(name.value), ec)) return false;
+    if (!fs::exists(fs::path(name.value), ec)) {
         if (mode == FileMode::RANDOM) {
             std::ofstream f(name.value, std::ios::out);
             f.close();
@@ -125,7 +135,9 @@ bool FileManager::createFile(const String &name, FileMode mode) {
             return false;
         }
     }
-    files.emplace_back(std::make_unique<File>(name, mode));
+    auto file = std::make_unique<File>(name, mode);
+    if (!file->isOpen()) return false;
+    files.emplace_back(std::move(file));
     return true;
 }
 
